@@ -99,6 +99,7 @@ impl PropertyRun {
     /// Run one batch of a check and handle whatever it finds.
     pub fn batch(&mut self, check: &str, runs: u64, max_wall_s: u64, rule: &str, case: &CaseFn) {
         let open = self.open_signatures();
+        let runs = std::env::var("VERIF_RUNS").ok().and_then(|s| s.parse().ok()).unwrap_or(runs);
         let cfg = BatchCfg {
             property: &self.property,
             check,
